@@ -66,12 +66,17 @@ def gauge_tachyon(t, pattern):
     tb = get_entry(t, "MINPAR", "3")
     if tb is None or not (tb > 0) or not math.isfinite(tb) or get_entry(t, "MASS", "25") is not None:
         return None
+    # v^2 = MW^2 sw^2/(pi alpha_em(MZ)) from the SM inputs of this file (they vary from file to file)
+    ainv, mz, mw = get_entry(t, "SMINPUTS", "1"), get_entry(t, "SMINPUTS", "4"), get_entry(t, "SMINPUTS", "9")
+    if not ainv or not mz or not mw or not (0 < mw < mz):
+        return None
+    v2 = mw * mw * (1 - mw * mw / (mz * mz)) * ainv / math.pi
     rnd = random.Random("%s|%r" % (pattern, tb))
     M = 900.0
     for _ in range(200000):
         lam = [rnd.uniform(-4, 4) for _ in range(5)] + [0.0, 0.0]
         m122 = rnd.choice([0.0, rnd.uniform(-1, 1) * 1e5])
-        h, H, A, Hp = thdm_tree_m2(lam, tb, m122)
+        h, H, A, Hp = thdm_tree_m2(lam, tb, m122, v2)
         if min(abs(h), abs(H), abs(A), abs(Hp)) < M:
             continue
         got = ("h>" if (h < 0 and H > 0 and -h > H) else "h<" if (h < 0 and H > 0) else "hH" if h < 0 else "") + ("A" if A < 0 else "") + ("P" if Hp < 0 else "")
